@@ -235,6 +235,39 @@ def gz_cases(rng, L, tier):
     return out
 
 
+def zero_limit_cases(rng):
+    """max_body_size=0 is a real configuration (a server that accepts no request bodies): it must not be
+    read as `unset`.  Limit 0 x body sizes {0, 1, 50} x {Content-Length, chunked, gzip} x override {none, 0, larger}."""
+    out = []
+    for ov in (None, 0, 100):
+        eff = 0 if ov is None else ov
+        for n in (0, 1, 50):
+            data = body_bytes(rng, n)
+            within = n <= eff
+            head = b"POST /z HTTP/1.1\r\nHost: x\r\nContent-Length: %d\r\n\r\n" % n
+            out.append(mk(seg_body(rng, head, data + NEXT), mb=0, ov=ov, cs=rng.choice([4, 64]), kind="zero-limit cl n=%d" % n,
+                          expect=("ok", [data, b""]) if within else ("reject-before-body",)))
+            head = b"POST /z HTTP/1.1\r\nHost: x\r\nTransfer-Encoding: chunked\r\n\r\n"
+            out.append(mk(seg_body(rng, head, chunked_wire(rand_chunks(rng, data)) + NEXT), mb=0, ov=ov, cs=rng.choice([4, 64]),
+                          kind="zero-limit chunked n=%d" % n, expect=("ok", [data, b""]) if within else ("reject-before-body",)))
+            # decoder on: the wire bytes are limited by the override, the decompressed bytes by max_body_size = 0
+            z = gzip.compress(data)
+            gz_ok = len(z) <= eff and n == 0
+            head = b"POST /z HTTP/1.1\r\nHost: x\r\nContent-Encoding: gzip\r\nContent-Length: %d\r\n\r\n" % len(z)
+            out.append(mk(seg_body(rng, head, z + NEXT), mb=0, ov=ov, cs=rng.choice([4, 64]), dec=True, kind="zero-limit gzip cl n=%d" % n,
+                          expect=("ok", [data, b""]) if gz_ok else ("reject",)))
+            head = b"POST /z HTTP/1.1\r\nHost: x\r\nContent-Encoding: gzip\r\nTransfer-Encoding: chunked\r\n\r\n"
+            out.append(mk(seg_body(rng, head, chunked_wire(rand_chunks(rng, z)) + NEXT), mb=0, ov=ov, cs=rng.choice([4, 64]), dec=True,
+                          kind="zero-limit gzip chunked n=%d" % n, expect=("ok", [data, b""]) if gz_ok else ("reject",)))
+            # decoder on, plain body
+            head = b"POST /z HTTP/1.1\r\nHost: x\r\nContent-Length: %d\r\n\r\n" % n
+            out.append(mk(seg_body(rng, head, data + NEXT), mb=0, ov=ov, dec=True, kind="zero-limit decoder-on plain n=%d" % n,
+                          expect=("ok", [data, b""]) if within else ("reject-before-body",)))
+    # a request without a body is unaffected by a zero limit
+    out.append(mk([NEXT + NEXT], mb=0, kind="zero-limit no-body", expect=("ok", [b"", b""])))
+    return out
+
+
 def corpus_cases():
     import random
     rng = random.Random(4)
@@ -255,6 +288,7 @@ def gen_cases(rng, tier):
     for L in Ls:
         out += limit_cases(rng, L, tier)
         out += override_cases(rng, L)
+    out += zero_limit_cases(rng)
     for mh in ((40, 64, 256) if tier == "quick" else (36, 40, 64, 256, 1000)):
         out += header_cases(rng, mh)
     for L in ((16, 64) if tier == "quick" else (1, 16, 64, 300)):
@@ -343,7 +377,7 @@ ASSUMPTIONS = [
     "_GzipMessageDelegate.finish: decompressor.flush() returns no data (otherwise finish raises ValueError; not observed for any generated body)",
     "max_buffer_size (IOStream read buffer cap, default 100MB) is far above every limit used and is not modelled",
 ]
-RULE = ("limits L in {16,64,1000} (thorough adds 1,300) x body sizes {L-1,L,L+1,10L} x framing {Content-Length, chunked with random chunk splits, one declared chunk} "
+RULE = ("limit 0 (a real configuration: no request bodies) x body sizes {0,1,50} x {Content-Length, chunked, gzip} x override {none,0,100}; limits L in {16,64,1000} (thorough adds 1,300) x body sizes {L-1,L,L+1,10L} x framing {Content-Length, chunked with random chunk splits, one declared chunk} "
         "x segmentations; per-request override below/above L; header blocks of mh-1, mh, mh+1, 10mh bytes; decompress_request with gzip bodies that inflate to "
         "{L-1,L,L+1,10L,100L} (compressible bombs and incompressible data, Content-Length and chunked, chunk_size 4..1000), corrupt/truncated/two-member gzip, "
         "decoder on with plain bodies; every chunk split of bodies of 3..5 bytes (thorough 0..7) around L=4; C01's request grammar under small limits")
